@@ -22,7 +22,7 @@ RULE = ("(a) seq runs: sequential histories on the real souffle::btree_delete_se
 
 def quick(seed):
     runs = [("seq%d" % i, ["--mode", "seq", "--seed", str(seed * 64 + i + 1), "--cases", "5000"]) for i in range(7)]
-    runs += [("conc%d" % i, ["--mode", "conc", "--seed", str(seed * 64 + 32 + i + 1), "--cases", "2500"]) for i in range(5)]
+    runs[1:1] = [("conc%d" % i, ["--mode", "conc", "--seed", str(seed * 64 + 32 + i + 1), "--cases", "2500"]) for i in range(5)]
     runs += [("dfs_dset_p3_2x1_b2", ["--mode", "dfs", "--prefill", "3", "--nops", "1", "--bound", "2"]),
              ("dfs_dset_p5_2x2_b1", ["--mode", "dfs", "--prefill", "5", "--nops", "2", "--bound", "1", "--keys", "25,35,55"])]
     return runs
@@ -30,7 +30,7 @@ def quick(seed):
 
 def thorough(seed):
     runs = [("seq%d" % i, ["--mode", "seq", "--seed", str(seed * 64 + i + 1), "--cases", "400000", "--size", "60"]) for i in range(7)]
-    runs += [("conc%d" % i, ["--mode", "conc", "--seed", str(seed * 64 + 32 + i + 1), "--cases", "120000", "--size", "60"]) for i in range(5)]
+    runs[1:1] = [("conc%d" % i, ["--mode", "conc", "--seed", str(seed * 64 + 32 + i + 1), "--cases", "120000", "--size", "60"]) for i in range(5)]
     runs += [("dfs_dset_p3_2x1_b3", ["--mode", "dfs", "--prefill", "3", "--nops", "1", "--bound", "3", "--max", "4000000"]),
              ("dfs_dset_p5_2x1_b3", ["--mode", "dfs", "--prefill", "5", "--nops", "1", "--bound", "3", "--max", "4000000"]),
              ("dfs_dset_p5_2x2_b2", ["--mode", "dfs", "--prefill", "5", "--nops", "2", "--bound", "2", "--max", "4000000"]),
